@@ -1211,9 +1211,12 @@ func (vc *VC) feasible(cond string) bool {
 	for _, f := range vc.implementsFacts() {
 		sb.WriteString(f + "\n")
 	}
-	for _, a := range vc.asserts {
+	for k, a := range vc.asserts {
 		if strings.Contains(a, "(@ptrwf@") {
 			continue // expanded only when the VC is complete; leaving a fact out keeps the answer conservative
+		}
+		if vc.obAsserts[k] {
+			continue // like reachability covers: judged under assumptions only, not under obligations that may fail
 		}
 		sb.WriteString("(assert " + a + ")\n")
 	}
